@@ -163,7 +163,7 @@ func genC16(rng *prng.R, idx int) *c16case {
 func runC16(r resIface, c *c16case, rng *prng.R, scratch string) {
 	ref := &reffilter.Config{}
 	conf.Options = conf.Configuration{Id: "verif", SourceAuthType: "auth", TargetAuthType: "auth", SourcePasswordRaw: c16srcPw, TargetPasswordRaw: c16tgtPw, TargetType: conf.RedisTypeStandalone,
-		ScanKeyNumber: c.ScanN, Qps: 500000, BigKeyThreshold: c.Threshold, KeyExists: c.KeyExists, TargetDB: c.TargetDB, TargetVersion: "5.0.7", TargetReplace: true, Metric: true,
+		ScanKeyNumber: c.ScanN, Qps: 5000, BigKeyThreshold: c.Threshold, KeyExists: c.KeyExists, TargetDB: c.TargetDB, TargetVersion: "5.0.7", TargetReplace: true, Metric: true,
 		HttpProfile: -1, Type: conf.TypeRump}
 	switch c.Filter {
 	case "keyblack":
@@ -439,6 +439,9 @@ func c16(c *wk.Ctx) {
 	}
 	n := c.N(96, 1600)
 	parts := 12
+	if n > 480 {
+		parts = n / 40 // every finished rump run leaves goroutines behind (QoS ticker, scanners): keep children short-lived
+	}
 	wk.Parallel(parts, 12, func(p int) {
 		wk.RunBatch(c, "c16runs", n*p/parts, n*(p+1)/parts, nil, 40*time.Minute, onDeath)
 	})
